@@ -97,6 +97,7 @@ func c14SpecWide(spec string) bool {
 type c14Ctx struct {
 	r    *Run
 	seen map[string]bool
+	base map[string]*C14Res // per fixture: the unmutated package through the battery
 }
 
 // cs: full dump, in-process (rows are small).
@@ -382,6 +383,74 @@ func (c *c14Ctx) replayLine(fx func() []*c14Fixture, line string, pool func() *c
 		if len(w) == 3 {
 			c.opSD([]byte(unhx(w[1])), []byte(unhx(w[2])))
 		}
+	case "st":
+		if len(w) == 12 {
+			c.opST(at(1), at(2), at(3) == 1, at(4), at(5), at(6) == 1, at(7), at(8), at(9) == 1, at(10), at(11))
+		}
+	case "as":
+		if len(w) == 4 {
+			c.opAS(w[1] == "1", at(2), strings.Count(w[3], ",")+1)
+		}
+	case "df":
+		if len(w) == 4 {
+			c.opDF(at(1), w[2] == "1", w[3] == "1")
+		}
+	case "tc":
+		if len(w) == 3 {
+			c.opTC(at(1), w[2] == "1")
+		}
+	case "gc":
+		if len(w) == 3 {
+			c.opGC(at(1), at(2))
+		}
+	case "rt":
+		if len(w) == 2 {
+			c.opRT(strings.Trim(w[1], "-"))
+		}
+	case "cf":
+		if len(w) == 2 {
+			c.opCF(at(1))
+		}
+	case "mc":
+		if len(w) == 4 {
+			c.opMC(unhx(w[1]), at(2), at(3))
+		}
+	case "mm":
+		if len(w) == 2 {
+			var rs [][4]int
+			if w[1] != "-" {
+				for _, r := range strings.Split(w[1], ";") {
+					q := strings.Split(r, ",")
+					if len(q) == 4 {
+						var v [4]int
+						for i := range v {
+							v[i], _ = strconv.Atoi(q[i])
+						}
+						rs = append(rs, v)
+					}
+				}
+			}
+			c.opMM(rs)
+		}
+	case "ch":
+		if len(w) == 4 {
+			cs := strings.Split(w[3], ",")
+			n, _ := strconv.ParseUint(cs[0], 10, 32)
+			for _, f := range fx() {
+				if f.name == "gen-enc" {
+					c.opCH(f, uint32(n))
+				}
+			}
+		}
+	case "ag":
+		if len(w) == 14 {
+			il := at(1)
+			if il >= 8 {
+				il = 100
+			}
+			c.opAG(c14Ag{infoLen: il, xmlOK: w[2] == "1", nKE: at(3), blockSize: at(4), hashLen: at(5), keyBits: at(6), spin: at(7),
+				saltOK: w[8] == "1", saltLen: at(9), encOK: w[10] == "1", encLen: at(11), kdSaltOK: w[12] == "1", pkgLen: at(13)})
+		}
 	case "zl":
 		if len(w) >= 4 {
 			for _, f := range fx() {
@@ -423,6 +492,23 @@ func (c *c14Ctx) mutResult(m *c14Mut, res *C14Res) {
 			what = fmt.Sprintf("%s during %s (battery took %d ms, allocated %d MiB); %s", res.Outcome, res.Call, res.Ms, res.Alloc>>20, m.ident())
 		}
 		r.Fail(sig, what, 0, "# "+m.ident()+"\n"+m.line())
+	}
+	// does the damage show in a modelled value? (decoded rows, shared-string / styled cells, table sizes of a
+	// package that still opens; the streams of an encrypted container) — those mutants have Impl's outcome
+	// compared with Go's on a transcript line (cs/csz/gvc/sd, deduplicated by value); the others are enumeration only
+	if b := c.base[m.fix.name]; b != nil {
+		modelled := false
+		if m.fix.pw != "" {
+			modelled = m.level == "stream" || m.level == "ixml" || m.level == "cfb"
+		} else if res.Open == "ok" {
+			modelled = strings.Join(res.Specs, "|") != strings.Join(b.Specs, "|") ||
+				strings.Join(res.Cells, "|") != strings.Join(b.Cells, "|") || res.NSI != b.NSI || res.NXf != b.NXf
+		}
+		if modelled {
+			r.Stat("tie:mutant-in-modelled-value")
+		} else {
+			r.Stat("tie:mutant-enumeration-only")
+		}
 	}
 	// tie: decoded rows of every sheet -> cs/csz line; worker's workSheetReader must agree with the hook
 	for i, spec := range res.Specs {
@@ -591,6 +677,8 @@ func runC14(r *Run, rng *Rng, replay string) {
 	c14Dbg("cs/gv done", t0)
 	c14GenSD(ctx, rng, nSD)
 	c14GenZL(ctx, fx())
+	c14GenSites(ctx, rng, fx(), thorough)
+	c14Dbg("sites done", t0)
 	c14Dbg("sd done", t0)
 	// 3. the mutation space
 	all := c14Enumerate(fx(), thorough)
@@ -667,6 +755,10 @@ func runC14(r *Run, rng *Rng, replay string) {
 		}
 		r.Stat("corpus:fixture")
 	}
+	ctx.base = map[string]*C14Res{}
+	for i, f := range fx() {
+		ctx.base[f.name] = base[i]
+	}
 	var maxMs int64
 	var maxAlloc uint64
 	for i, m := range sel {
@@ -681,6 +773,8 @@ func runC14(r *Run, rng *Rng, replay string) {
 		}
 		ctx.mutResult(m, results[i])
 	}
+	r.Notes = append(r.Notes, fmt.Sprintf("mutant->model tie: %d of %d executed mutants changed a modelled value (decoded rows, shared-string/styled cells, table sizes, encryption streams) and had Impl's outcome compared with Go's on a cs/csz/gvc/sd line (%d distinct lines); %d mutants are enumeration only",
+		r.Stats["tie:mutant-in-modelled-value"], len(sel), r.Stats["tie:cs"]+r.Stats["tie:gvc"]+r.Stats["tie:sd"], r.Stats["tie:mutant-enumeration-only"]))
 	r.Notes = append(r.Notes, fmt.Sprintf("workers %d (respawned %d times); slowest battery %d ms; largest allocation %d MiB; harness %.1fs", workers, pool.spawned-workers, maxMs, maxAlloc>>20, time.Since(t0).Seconds()))
 	for _, s := range r.opsSample(10) {
 		if len(s) > 300 {
